@@ -16,6 +16,7 @@
 //   'u' user line               'z' user EOF
 //   'r' "<seed> <absent_errno> <short_after>"   /dev/urandom
 //   'c' "<readline_cap> <fill_stack 0|1> [<probe 0|1>]"
+//   'd' "<stdin_delay_ms> <discard_stdout 0|1>"   'j' Ctrl-C at the next prompt
 //   'w' "<cols> <rows>" terminal size      'b' "<pos>" press TAB at this cursor position of the next user line
 // result (zygote -> python), terminated by '.':
 //   events recorded by the child (see emit()) followed by
@@ -36,7 +37,9 @@
 #include <fcntl.h>
 #include <malloc.h>
 #include <signal.h>
+#include <poll.h>
 #include <sys/ioctl.h>
+#include <sys/select.h>
 #include <sys/mman.h>
 #include <sys/personality.h>
 #include <sys/resource.h>
@@ -51,6 +54,8 @@ int __real_isatty(int);
 int __real_fileno(FILE*);
 char* __real_getenv(const char*);
 int __real_ioctl(int, unsigned long, void*);
+int __real_poll(struct pollfd*, nfds_t, int);
+int __real_select(int, fd_set*, fd_set*, fd_set*, struct timeval*);
 // optional white-box probe (seam/probe.cpp, one function per field group), absent for tap and btcc
 size_t btcsim_probe_core(char* out, size_t cap) __attribute__((weak));
 size_t btcsim_probe_counters(char* out, size_t cap) __attribute__((weak));
@@ -150,10 +155,14 @@ struct World {
     bool fill_stack = true;
     bool probe = true;
     int win_cols = 80, win_rows = 24;                 // what TIOCGWINSZ reports for a terminal end
+    long stdin_delay_ms = 0;                          // simulated time at which the first byte of stdin becomes readable
+    bool discard_stdout = false;                      // long sessions: stdout is counted, not recorded
+    std::map<size_t, int> sigints;                    // user line index -> the user presses Ctrl-C at that prompt first
     std::map<size_t, std::vector<long>> tabs;         // user line index -> cursor positions at which TAB is pressed
     std::map<std::string, FileSpec> fs;
 };
 World W;
+long g_now_ms = 0;        // simulated clock (milliseconds since the process started)
 
 std::vector<std::string> split(const std::string& s, char c) {
     std::vector<std::string> r;
@@ -201,7 +210,7 @@ ssize_t out_write(void* c, const char* buf, size_t n) {
         take = lim > oc->written ? (size_t)(lim - oc->written) : 0;
         fail = true;
     }
-    if (take) emit(oc->which == 1 ? 'O' : 'E', buf, take);
+    if (take && !(oc->which == 1 && W.discard_stdout)) emit(oc->which == 1 ? 'O' : 'E', buf, take);
     oc->written += take;
     if (fail) {
         emitf('S', "sinkfail %d %d", oc->which, W.sink_errno[oc->which]);
@@ -216,6 +225,7 @@ OutCookie g_out = {1, 0}, g_err = {2, 0};
 struct InCookie { size_t pos; size_t chunk_i; };
 ssize_t in_read(void* c, char* buf, size_t n) {
     InCookie* ic = (InCookie*)c;
+    if (g_now_ms < W.stdin_delay_ms) g_now_ms = W.stdin_delay_ms;     // a blocking read waits until the data is there
     size_t left = W.stdin_bytes.size() - ic->pos;
     if (left == 0) {
         if (W.stdin_end_errno) { emitf('S', "stdinerr %d", W.stdin_end_errno); errno = W.stdin_end_errno; return -1; }
@@ -432,6 +442,8 @@ bool parse_world() {
         case 'u': W.user.push_back({false, p}); break;
         case 'z': W.user.push_back({true, ""}); break;
         case 'r': { unsigned long long s; int e; long sh; if (sscanf(p.c_str(), "%llu %d %ld", &s, &e, &sh) == 3) { W.urandom_seed = s; W.urandom_absent_errno = e; W.urandom_short_after = sh; } break; }
+        case 'd': { long ms; int disc; if (sscanf(p.c_str(), "%ld %d", &ms, &disc) == 2) { W.stdin_delay_ms = ms; W.discard_stdout = disc != 0; } break; }
+        case 'j': W.sigints[W.user.size()] = 1; break;
         case 'w': { int c, r; if (sscanf(p.c_str(), "%d %d", &c, &r) == 2) { W.win_cols = c; W.win_rows = r; } break; }
         case 'b': { long pos; if (sscanf(p.c_str(), "%ld", &pos) == 1) W.tabs[W.user.size()].push_back(pos); break; }
         case 'c': { long cap; int fs; int pr = 1; if (sscanf(p.c_str(), "%ld %d %d", &cap, &fs, &pr) >= 2) { W.readline_cap = cap; W.fill_stack = fs != 0; W.probe = pr != 0; } break; }
@@ -509,6 +521,17 @@ char* readline(const char* prompt) {
     if (++g_readline_calls > W.readline_cap) {
         emitf('T', "cap readline");
         _exit(79);
+    }
+    {
+        auto si = W.sigints.find(g_user_i);
+        if (si != W.sigints.end() && si->second) {
+            // the user presses Ctrl-C at this prompt: the terminal sends SIGINT to the foreground process
+            si->second = 0;
+            fflush(stdout); fflush(stderr);
+            emitf('S', "sigint");
+            raise(SIGINT);
+            emitf('S', "sigint-returned");      // a handler was installed and returned
+        }
     }
     if (g_user_i >= W.user.size() || W.user[g_user_i].first) {
         if (g_user_i < W.user.size()) g_user_i++;
@@ -601,6 +624,42 @@ FILE* __wrap_fopen(const char* path, const char* mode) {
     emitf('S', "fopen %s %s ok", path, mode);
     FileCookie* fc = new FileCookie{&f, writing, 0, 0, 0, "", false, 0};
     return fopencookie(fc, writing ? "w" : "r", fn);
+}
+// --- simulated time: the only thing that passes it is waiting for input.  A wait on stdin with a timeout either
+// reaches the moment the data arrives (the clock jumps there) or times out (the clock advances by the timeout).
+static int stdin_wait(long timeout_ms) {
+    long left = W.stdin_delay_ms - g_now_ms;
+    if (left <= 0) { emitf('S', "wait stdin ready now=%ld", g_now_ms); return 1; }
+    if (timeout_ms < 0 || timeout_ms >= left) { g_now_ms = W.stdin_delay_ms; emitf('S', "wait stdin ready now=%ld", g_now_ms); return 1; }
+    g_now_ms += timeout_ms;
+    emitf('S', "wait stdin timeout now=%ld", g_now_ms);
+    return 0;
+}
+int __wrap_poll(struct pollfd* fds, nfds_t n, int timeout) {
+    if (!g_in_child) return __real_poll(fds, n, timeout);
+    int ready = 0;
+    bool waited = false;
+    for (nfds_t i = 0; i < n; i++) {
+        fds[i].revents = 0;
+        if (fds[i].fd == 0 && (fds[i].events & POLLIN)) {
+            if (!waited) { waited = true; if (stdin_wait(timeout)) { fds[i].revents = POLLIN; ready++; } }
+        } else if (fds[i].fd == 1 || fds[i].fd == 2) {
+            if (fds[i].events & POLLOUT) { fds[i].revents = POLLOUT; ready++; }
+        }
+    }
+    if (!waited && ready == 0 && timeout > 0) g_now_ms += timeout;
+    return ready;
+}
+int __wrap_select(int nfds, fd_set* r, fd_set* w, fd_set* e, struct timeval* tv) {
+    if (!g_in_child) return __real_select(nfds, r, w, e, tv);
+    long timeout = tv ? tv->tv_sec * 1000 + tv->tv_usec / 1000 : -1;
+    int ready = 0;
+    bool want0 = r && nfds > 0 && FD_ISSET(0, r);
+    if (r) { fd_set keep; FD_ZERO(&keep); if (want0 && stdin_wait(timeout)) { FD_SET(0, &keep); ready++; } *r = keep; }
+    if (w) { fd_set keep; FD_ZERO(&keep); for (int fd = 1; fd <= 2 && fd < nfds; fd++) if (FD_ISSET(fd, w)) { FD_SET(fd, &keep); ready++; } *w = keep; }
+    if (e) FD_ZERO(e);
+    if (!want0 && ready == 0 && timeout > 0) g_now_ms += timeout;
+    return ready;
 }
 int __wrap_ioctl(int fd, unsigned long req, void* arg) {
     if (!g_in_child) return __real_ioctl(fd, req, arg);
